@@ -194,3 +194,14 @@ claim('C11',
       'records, random access, metadata escaping and foreign files are text plumbing with nothing symbolic left: not claimed '
       '(see not_applicable note in DESIGN.md §5); the wedge <-> sign relation over all real coordinates is decided under C12.',
       'symbolic execution of the real writers and readers with solver-enumerated field values (minisym)', 'DESIGN.md §4 C11')
+claim('C16',
+      'The template / input / result vectors of the repository\'s own (non-running) test_transformer.py, harvested by ast on '
+      'every run, and 9 synthetic templates (deletion with detached fragments, masked atoms, new atoms, charge change, bond '
+      'order change, identity) are applied to every random-order spelling of the input (random() symbolic): one product per '
+      'distinct match, the documented products for every input order, the same product set as for the original numbering, '
+      'unique atom numbers, valence-valid products, unnamed atoms keep number / attributes / neighbours, named atoms get the '
+      'requested charge and radical state, deleted atoms go with their detached fragments (my reachability oracle) unless masked, '
+      'the input is not modified.',
+      'Claimed narrowly: Transformer with the listed templates; the built-in reaction / deprotection collections and Reactor '
+      'modes are outside; one recorded finding (stereo override depends on input atom order).',
+      'symbolic execution of the real matcher / patcher with z3-decided input orders (minisym)', 'DESIGN.md §4 C16')
